@@ -535,17 +535,31 @@ func iterValue(it *simdjson.Iter, t simdjson.Type, depth int) (*ref.Value, error
 func ElemsValue(it simdjson.Iter) (v *ref.Value, err error) {
 	err = Guard(func() error {
 		var e error
-		v, e = elemsValue(&it, it.Type())
+		pool := &elemPool{}
+		v, e = elemsValue(&it, it.Type(), pool, 0)
 		return e
 	})
 	return
 }
 
+// elemPool hands out one reusable Elements per nesting depth, so that
+// Object.Parse is exercised with a destination that an earlier, different
+// object already filled (siblings at the same depth share it).
+type elemPool struct{ byDepth []*simdjson.Elements }
+
+func (p *elemPool) get(depth int) *simdjson.Elements {
+	for len(p.byDepth) <= depth {
+		p.byDepth = append(p.byDepth, nil)
+	}
+	return p.byDepth[depth]
+}
+
 // Elems runs ElemsValue over every root.
 func Elems(pj *simdjson.ParsedJson) (roots []*ref.Value, err error) {
 	err = Guard(func() error {
+		pool := &elemPool{}
 		return pj.ForEach(func(i simdjson.Iter) error {
-			v, err := elemsValue(&i, i.Type())
+			v, err := elemsValue(&i, i.Type(), pool, 0)
 			if err != nil {
 				return err
 			}
@@ -556,17 +570,18 @@ func Elems(pj *simdjson.ParsedJson) (roots []*ref.Value, err error) {
 	return
 }
 
-func elemsValue(it *simdjson.Iter, t simdjson.Type) (*ref.Value, error) {
+func elemsValue(it *simdjson.Iter, t simdjson.Type, pool *elemPool, depth int) (*ref.Value, error) {
 	switch t {
 	case simdjson.TypeObject:
 		o, err := it.Object(nil)
 		if err != nil {
 			return nil, err
 		}
-		els, err := o.Parse(nil)
+		els, err := o.Parse(pool.get(depth))
 		if err != nil {
 			return nil, err
 		}
+		pool.byDepth[depth] = els
 		v := &ref.Value{K: ref.Object}
 		last := map[string]int{}
 		for idx := range els.Elements {
@@ -574,7 +589,7 @@ func elemsValue(it *simdjson.Iter, t simdjson.Type) (*ref.Value, error) {
 			if e.Type != e.Iter.Type() {
 				return nil, fmt.Errorf("Element.Type %v != Iter.Type %v", e.Type, e.Iter.Type())
 			}
-			c, err := elemsValue(&e.Iter, e.Type)
+			c, err := elemsValue(&e.Iter, e.Type, pool, depth+1)
 			if err != nil {
 				return nil, err
 			}
@@ -608,7 +623,7 @@ func elemsValue(it *simdjson.Iter, t simdjson.Type) (*ref.Value, error) {
 			if et == simdjson.TypeNone {
 				break
 			}
-			c, e := elemsValue(&elem, et)
+			c, e := elemsValue(&elem, et, pool, depth+1)
 			if e != nil {
 				return nil, e
 			}
